@@ -752,6 +752,20 @@ class Harness:
             else:
                 raise ValueError(o)
         # ---- teardown: observe quiescence, then make the runtime end if it has not
+        # (on a heavily loaded machine a payload may take longer to start than the service loop
+        #  takes to poll: as long as nothing in the script has triggered termination, everything
+        #  adopt() accepted is given up to two more seconds to show up)
+        calm = not any(op["op"] in ("shutdown", "sigint", "reaccept", "second_accept") or (op["op"] == "end" and op.get("how") != "none") for op in scn["script"]) \
+            and not any(sp.get("immediate") or sp.get("bad_run") for sp in list(scn["payloads"].values()) + list(scn.get("services", {}).values()))
+        if calm and self.accept_go.is_set() and not self.accept_done.is_set():
+            deadline = time.time() + 2.0
+            while time.time() < deadline:
+                evs = hooks.snapshot()
+                started = {e["p"] for e in evs if e["e"] == "p.start"}
+                accepted = {e["p"] for e in evs if e["e"] == "adopt.ret" and e.get("ok")} | {e["s"] for e in evs if e["e"] == "svc.new"}
+                if accepted <= started or self.accept_done.is_set():
+                    break
+                time.sleep(0.02)
         hooks.emit("quiescent")
         if self.accept_go.is_set() and not self.accept_done.is_set() and not self.scn.get("no_accept"):
             hooks.emit("teardown.begin")
